@@ -25,8 +25,9 @@ RULE = ("per (base class kind, attribute name): every history up to the depth"
 EXPLANATION = ("direct exploration with fresh classes per execution; "
                "reference = independent resolver + twin hierarchy with the "
                "governing trait declared explicitly + policy clauses")
-BOUNDS = {"quick": "3 base kinds x 13 names, depth 5 with dedup",
-          "thorough": "depth 6"}
+BOUNDS = {"quick": "3 base kinds x 15 names, three instances (base, late "
+                   "subclass, multiple-inheritance subclass), depth 4 with "
+                   "dedup", "thorough": "depth 5"}
 ASSUMPTIONS = ["dunder names are reserved by documented design and kept out "
                "of the alphabet", "wildcard prefixes as the code documents "
                "them: 'x_ = T' declares prefix 'x'"]
@@ -47,11 +48,14 @@ FACT = {"Int": lambda: Int(1), "Str": lambda: Str("s"),
 BASE_DECL = {"i": "Int", "ro": "ReadOnly", "k": "Constant", "e": "Event",
              "x_": "IntW", "_p_": "StrW"}
 SUB_DECL = {"x_l_": "StrW", "i": "Str"}
+#: a second base contributing wildcards to a subclass that declares none
+MIXIN_DECL = {"n_": "IntW", "name_": "StrW"}
 NAMES = ["i", "ro", "k", "e", "x", "xa", "x_a", "x_l", "x_lq", "_pq", "_p",
-         "_q", "zzz"]
+         "_q", "zzz", "name_first", "nq"]
 
 
-def build(kind, extra_base=None, extra_sub=None, with_sub=True):
+def build(kind, extra_base=None, extra_sub=None, with_sub=True,
+          extra_mi=None):
     ns = {n: FACT[f]() for n, f in BASE_DECL.items()}
     ns.update({n: FACT[f]() for n, f in (extra_base or {}).items()})
     Base = type("Base", (KINDS[kind],), ns)
@@ -60,6 +64,11 @@ def build(kind, extra_base=None, extra_sub=None, with_sub=True):
         ns2 = {n: FACT[f]() for n, f in SUB_DECL.items()}
         ns2.update({n: FACT[f]() for n, f in (extra_sub or {}).items()})
         return type("Sub", (Base,), ns2)
+    # multiple inheritance: the wildcards come from the second base only
+    Mixin = type("Mixin", (KINDS[kind],),
+                 {n: FACT[f]() for n, f in MIXIN_DECL.items()})
+    build.last_mi = type("SubMI", (Base, Mixin),
+                         {n: FACT[f]() for n, f in (extra_mi or {}).items()})
     return Base, mk_sub
 
 
@@ -90,10 +99,11 @@ FACT["Str0"] = lambda: Str
 
 def events():
     evs = []
-    for who in ("b", "s"):
+    for who in ("b", "s", "m"):
         evs += [("get", who), ("set", who, 5), ("set", who, "v"),
                 ("set", who, None),
                 ("del", who), ("add_trait", who), ("remove_trait", who)]
+    evs += [("add_trait2", "b"), ("add_trait2", "m")]
     evs.append(("define_sub",))
     return evs
 
@@ -107,19 +117,25 @@ class Side:
         if twin:
             hb, fb = resolve([BASE_DECL], name)
             hs, fs = resolve([SUB_DECL, BASE_DECL], name)
+            hm, fm = resolve([BASE_DECL, MIXIN_DECL], name)
             eb = {name: EXPL[fb]} if hb == "wildcard" else None
+            em = {name: EXPL[fm]} if hm == "wildcard" and \
+                (hb, fb) != (hm, fm) else None
             if hs == "wildcard" and (hb, fb) != (hs, fs):
                 es = {name: EXPL[fs]}
             elif hs == "wildcard" and hb != "wildcard":
                 es = {name: EXPL[fs]}
-        self.Base, self.mk_sub = build(kind, eb, es)
+        else:
+            em = None
+        self.Base, self.mk_sub = build(kind, eb, es, extra_mi=em)
         self.b = self.Base()
+        self.m = build.last_mi()
         self.Sub = None
         self.s = None
-        self.inst = {"b": False, "s": False}
+        self.inst = {"b": False, "s": False, "m": False}
 
     def obj(self, who):
-        return self.b if who == "b" else self.s
+        return {"b": self.b, "s": self.s, "m": self.m}[who]
 
     def do(self, ev):
         """-> outcome tuple"""
@@ -144,6 +160,11 @@ class Side:
                 o.add_trait(n, Str("inst"))
                 self.inst[ev[1]] = True
                 return ("ok",)
+            if k == "add_trait2":
+                # a second definition for the same name, no removal between
+                o.add_trait(n, Int(77))
+                self.inst[ev[1]] = True
+                return ("ok",)
             if k == "remove_trait":
                 r = o.remove_trait(n)
                 self.inst[ev[1]] = False
@@ -161,16 +182,17 @@ class Model:
 
     def __init__(self, kind, name):
         self.kind, self.name = kind, name
-        self.inst = {"b": False, "s": False}
-        self.ro_written = {"b": False, "s": False}
+        self.inst = {"b": False, "s": False, "m": False}
+        self.ro_written = {"b": False, "s": False, "m": False}
         self.has_sub = False
         #: the base instance touched the name before the subclass existed
         self.late = False
 
     def gov(self, who):
         if self.inst[who]:
-            return "instance", "Str"
-        chain = [BASE_DECL] if who == "b" else [SUB_DECL, BASE_DECL]
+            return "instance", self.inst[who]
+        chain = {"b": [BASE_DECL], "s": [SUB_DECL, BASE_DECL],
+                 "m": [BASE_DECL, MIXIN_DECL]}[who]
         return resolve(chain, self.name)
 
 
@@ -181,8 +203,10 @@ def enabled(model, ev):
         return False
     if ev[0] == "add_trait":
         return not model.inst[ev[1]]
+    if ev[0] == "add_trait2":
+        return model.inst[ev[1]] == "Str"
     if ev[0] == "remove_trait":
-        return model.inst[ev[1]]
+        return bool(model.inst[ev[1]])
     return True
 
 
@@ -192,8 +216,19 @@ def check_policy(ctx, model, ev, out, bad):
     if k in ("define_sub",):
         ctx.outcome("subclass-defined-late")
         return
+    if k == "add_trait2":
+        return
     how, f = model.gov(ev[1])
     name = model.name
+    if how == "instance" and f == "Int":
+        ctx.outcome("instance-trait-governed")
+        if k == "set" and ev[2] == "v" and out[0] != "TraitError":
+            bad("second-instance-trait-not-governing", "a second add_trait "
+                "(Int) for the name is in force but a str was accepted")
+        if k == "set" and ev[2] == 5 and out[0] != "ok":
+            bad("second-instance-trait-not-governing", "a second add_trait "
+                "(Int) for the name is in force but 5 was rejected")
+        return
     if how == "instance":
         ctx.outcome("instance-trait-governed")
         if k == "set" and ev[2] in (5, None) and out[0] != "TraitError":
@@ -309,7 +344,9 @@ def run_history(ctx, kind, name, hist):
             return True, None       # known finding: do not extend
         check_policy(ctx, model, ev, o1, bad)
         if ev[0] == "add_trait":
-            model.inst[ev[1]] = True
+            model.inst[ev[1]] = "Str"
+        if ev[0] == "add_trait2":
+            model.inst[ev[1]] = "Int"
         if ev[0] == "remove_trait":
             model.inst[ev[1]] = False
             model.ro_written[ev[1]] = False
@@ -323,8 +360,10 @@ def run_history(ctx, kind, name, hist):
     key = (kind, name, tuple(t[1] for t in trace[-2:]),
            sorted(real.b.__dict__.items(), key=repr),
            sorted(real.s.__dict__.items(), key=repr) if real.s else None,
-           model.inst["b"], model.inst["s"], model.has_sub,
+           model.inst["b"], model.inst["s"], model.inst["m"], model.has_sub,
+           sorted(real.m.__dict__.items(), key=repr),
            model.ro_written["b"], model.ro_written["s"],
+           model.ro_written["m"],
            name in real.Base.__dict__.get("__class_traits__", {}),
            name in real.Base.__base_traits__)
     return True, repr(key)
@@ -337,7 +376,7 @@ def shards(tier):
 def run_shard(ctx, shard, tier):
     kind, name = shard["kind"], shard["name"]
     evs = events()
-    depth = 5 if tier == "quick" else 6
+    depth = 4 if tier == "quick" else 5
     frontier = [[]]
     n_exec = 0
     for d in range(1, depth + 1):
